@@ -45,7 +45,7 @@ theorem fault_reported (cfg : Cfg ℚ) (target : ℚ) (orc : Oracle ℚ) (fuel :
 /-- leaving through the guard never changes the status inside the loop, so a call that returns
 normally reports success (1) even when an earlier call had failed or was stopped by an event -/
 theorem success_after_resume (cfg : Cfg ℚ) (s : Sys ℚ) (target : ℚ) (orc : Oracle ℚ) (fuel : Nat)
-    (hcr : s.crashed = false) (hfar : ¬ (DV.absC (target - s.tcur) < cfg.eps))
+    (hcr : s.crashed = false) (hfar : ¬ (DV.absC (target - s.tcur) < cfg.tolEps))
     (halloc : (allocSteps (target - s.tcur) (initialDt cfg s target)).isSome)
     (hg : (integrate cfg s target orc fuel).guardExit = true) :
     (integrate cfg s target orc fuel).sys.status = 1 := by
@@ -61,7 +61,7 @@ theorem success_after_resume (cfg : Cfg ℚ) (s : Sys ℚ) (target : ℚ) (orc :
 
 /-- `finally:` the buffers are trimmed to the recorded samples whatever happened -/
 theorem buffers_trimmed (cfg : Cfg ℚ) (s : Sys ℚ) (target : ℚ) (orc : Oracle ℚ) (fuel : Nat)
-    (hcr : s.crashed = false) (hfar : ¬ (DV.absC (target - s.tcur) < cfg.eps))
+    (hcr : s.crashed = false) (hfar : ¬ (DV.absC (target - s.tcur) < cfg.tolEps))
     (halloc : (allocSteps (target - s.tcur) (initialDt cfg s target)).isSome) :
     (integrate cfg s target orc fuel).sys.cap = (integrate cfg s target orc fuel).sys.ts.length := by
   unfold integrate
